@@ -1254,3 +1254,23 @@ mutant('C02', 'load-call-through-a-keyword-bundle-crossed', SV, _LOAD_CALL_OLD, 
                              'angular_speed': element.angular_position}
                     external_torque = element.external_torque(**state)
 """, 'C02')
+
+# ------------------------------------------------------------------------------------------ round-7 rules
+mutant('C18', 'snapshot-gear-block-for-gearbase-or-wormgear', PT, "            if isinstance(element, GearBase | WormGear):", "            if isinstance(element, GearBase or WormGear):", 'C18.own-guard', nth=0)
+benign('C18', 'snapshot-gear-block-by-tuple-of-classes', PT, "            if isinstance(element, GearBase | WormGear):", "            if isinstance(element, (GearBase, WormGear)):", nth=0)
+mutant('C10', 'pressure-angles-compared-after-conversion', RL, "    if master.pressure_angle != slave.pressure_angle:",
+       "    master_pressure_angle = master.pressure_angle.to('deg')\n    slave_pressure_angle = slave.pressure_angle.to('deg')\n    if master_pressure_angle != slave_pressure_angle:", 'C10.rejects')
+benign('C10', 'pressure-angles-through-locals', RL, "    if master.pressure_angle != slave.pressure_angle:",
+       "    master_pressure_angle = master.pressure_angle\n    slave_pressure_angle = slave.pressure_angle\n    if master_pressure_angle != slave_pressure_angle:")
+mutant('C08', 'setter-super-of-the-objects-class', DC, "        super(DCMotor, type(self)).driving_torque.fset(self, driving_torque)", "        super(type(self), type(self)).driving_torque.fset(self, driving_torque)", 'C08.hidden-state')
+mutant('C02', 'setter-super-of-the-objects-class', DC, "        super(DCMotor, type(self)).driving_torque.fset(self, driving_torque)", "        super(type(self), type(self)).driving_torque.fset(self, driving_torque)", 'C02')
+multi('C20', 'cycle-guard-marks-left-on-rejected-chains', 'mutant', [
+    (PT, "        while elements[-1].drives is not None:\n            elements.append(elements[-1].drives)\n",
+         "        while elements[-1].drives is not None and not hasattr(elements[-1].drives, '_in_chain'):\n"
+         "            elements[-1].drives._in_chain = True\n            elements.append(elements[-1].drives)\n"),
+    (PT, "        self.__elements = tuple(elements)\n", "        for element in elements[1:]:\n            del element._in_chain\n\n        self.__elements = tuple(elements)\n")], 'C20.rejects')
+multi('C20', 'scan-skipped-unless-a-counter-of-exact-types-has-a-worm', 'mutant', [
+    (PT, SCAN_OLD, "        kinds = Counter(type(element) for element in elements)\n        self.__self_locking = kinds[WormGear] > 0 and any(\n"
+                   "            element.self_locking for element in elements if isinstance(element, WormGear))\n")], 'C20')
+mutant('C15', 'proposals-in-dict-keyed-by-rule-kind', PC, "        pwm_values = [rule.apply() for rule in self.__rules]\n",
+       "        pwm_values = list({rule.__class__.__name__: rule.apply() for rule in self.__rules}.values())\n", 'C15.dep.arbitration')
